@@ -195,6 +195,11 @@ def run(ctx, res):
     res.samples.append({"ddl": scripts[5][1]})
     if ctx.model:
         theorem_forms(ctx, res)
+        # the models the theorem is about, on the Python-generated scripts: statements through lexer + LR + actions, scripts through run()
+        sub = scripts[:: (2 if ctx.thorough else 6)]
+        st = ctx.impl.map([{"op": "statements", "ddl": x} for _, x in sub])
+        corr_parse(ctx, res, [s_ for a in st if "ok" in a for s_ in a["ok"]["statements"]])
+        corr_run(ctx, res, [x for _, x in sub])
 
 
 def replay(ctx, payload):
